@@ -71,8 +71,52 @@ def _self_method_reads(cls: ClassInfo, name: str, depth: int = 2) -> Set[str]:
     return out
 
 
-def _examined(expr: ast.AST, other: str, cls: ClassInfo) -> Tuple[Set[str], Set[str], List[str]]:
+def _loop_aliases(fnode: ast.AST, other: str):
+    """`for a, b in ((self.f, other.f), (self.g, other.g))`: a -> self-fields {f, g}, b -> other-fields {f, g}"""
+    al_self: Dict[str, Set[str]] = {}
+    al_other: Dict[str, Set[str]] = {}
+    literal_loops = set()
+    for n in ast.walk(fnode):
+        if isinstance(n, ast.For) and isinstance(n.iter, (ast.Tuple, ast.List)) and n.iter.elts \
+                and all(isinstance(e, (ast.Tuple, ast.List)) for e in n.iter.elts) and isinstance(n.target, (ast.Tuple, ast.List)):
+            literal_loops.add(id(n))
+            for pos, t in enumerate(n.target.elts):
+                if not isinstance(t, ast.Name):
+                    continue
+                for e in n.iter.elts:
+                    if pos < len(e.elts):
+                        d = dotted_name(e.elts[pos])
+                        if d and d.count(".") == 1:
+                            base, f = d.split(".")
+                            if base == "self":
+                                al_self.setdefault(t.id, set()).add(f)
+                            elif base == other:
+                                al_other.setdefault(t.id, set()).add(f)
+    # for a, b in zip(self.f, other.g): a -> self-field f, b -> other-field g
+    for n in ast.walk(fnode):
+        gens = []
+        if isinstance(n, ast.For):
+            gens.append((n.target, n.iter))
+        if isinstance(n, (ast.ListComp, ast.SetComp, ast.GeneratorExp, ast.DictComp)):
+            gens += [(gn.target, gn.iter) for gn in n.generators]
+        for (tgt, it) in gens:
+            if isinstance(it, ast.Call) and dotted_name(it.func) == "zip" and isinstance(tgt, (ast.Tuple, ast.List)):
+                for pos, t in enumerate(tgt.elts):
+                    if isinstance(t, ast.Name) and pos < len(it.args):
+                        d = dotted_name(it.args[pos])
+                        if d and d.count(".") == 1:
+                            base, f = d.split(".")
+                            if base == "self":
+                                al_self.setdefault(t.id, set()).add(f)
+                            elif base == other:
+                                al_other.setdefault(t.id, set()).add(f)
+    return al_self, al_other, literal_loops
+
+
+def _examined(expr: ast.AST, other: str, cls: ClassInfo, al_self=None, al_other=None) -> Tuple[Set[str], Set[str], List[str]]:
     """(fields compared self-vs-other, fields None-tested on self, asymmetries) within one expression"""
+    al_self = al_self or {}
+    al_other = al_other or {}
     compared: Set[str] = set()
     nonetest: Set[str] = set()
     asym: List[str] = []
@@ -89,13 +133,24 @@ def _examined(expr: ast.AST, other: str, cls: ClassInfo) -> Tuple[Set[str], Set[
             for sub in ast.walk(n):
                 skip.add(id(sub))
 
-    def fields(recv):
-        return {n.attr for n in ast.walk(expr) if isinstance(n, ast.Attribute) and isinstance(n.value, ast.Name)
-                and n.value.id == recv and id(n) not in skip}
+    def fields(recv, scope):
+        out = {n.attr for n in ast.walk(scope) if isinstance(n, ast.Attribute) and isinstance(n.value, ast.Name)
+               and n.value.id == recv and id(n) not in skip}
+        al = al_self if recv == "self" else al_other
+        for n in ast.walk(scope):
+            if isinstance(n, ast.Name) and n.id in al and id(n) not in skip:
+                out |= al[n.id]
+        return out
 
-    sf = fields("self")
-    of = fields(other)
-    compared |= (sf & of)
+    # a field is *compared* when self.f and other.f meet in one comparison / equality call (not merely in one expression)
+    for n in ast.walk(expr):
+        joined = None
+        if isinstance(n, ast.Compare) and any(isinstance(o, (ast.Eq, ast.NotEq)) for o in n.ops):
+            joined = n
+        elif isinstance(n, ast.Call) and isinstance(n.func, ast.Attribute) and n.func.attr in ("is_equal", "__eq__", "__ne__", "equals", "same_table_description_"):
+            joined = n
+        if joined is not None:
+            compared |= (fields("self", joined) & fields(other, joined))
     # self.m() == other.m(): fields read by m
     smeth = set()
     ometh = set()
@@ -127,6 +182,30 @@ def _examined(expr: ast.AST, other: str, cls: ClassInfo) -> Tuple[Set[str], Set[
     return compared, nonetest, asym
 
 
+def _expand(cond: ast.AST, truth: bool):
+    """alternatives of (atom, truth) lists describing how `cond` evaluates to `truth` under short-circuit evaluation"""
+    if isinstance(cond, ast.UnaryOp) and isinstance(cond.op, ast.Not):
+        return _expand(cond.operand, not truth)
+    if isinstance(cond, ast.BoolOp):
+        conj = isinstance(cond.op, ast.And)
+        if conj == truth:
+            # and=True / or=False: every operand evaluated with that truth value
+            alts = [[]]
+            for v in cond.values:
+                alts = [a + b for a in alts for b in _expand(v, truth)]
+            return alts
+        # and=False / or=True: operands before the deciding one have the opposite value, later ones are not evaluated
+        out = []
+        prefix = [[]]
+        for v in cond.values:
+            for a in prefix:
+                for b in _expand(v, truth):
+                    out.append(a + b)
+            prefix = [a + b for a in prefix for b in _expand(v, not truth)]
+        return out
+    return [[(cond, truth)]]
+
+
 def check_eq_method(res, rule: str, cls: ClassInfo, m: FuncInfo, required: List[str], aliases: Dict[str, str]):
     """path-based examined-field check; aliases maps a compared field to the semantic field it carries"""
     params = [p for p in m.params() if p != "self"]
@@ -134,10 +213,15 @@ def check_eq_method(res, rule: str, cls: ClassInfo, m: FuncInfo, required: List[
         raise AnalysisError(f"{m.where()} has no `other` parameter")
     other = params[0]
     g = cfgmod.build(m.node)
+    al_self, al_other, literal_loops = _loop_aliases(m.node, other)
     missing_on_path: Dict[str, str] = {}
     asyms: Set[str] = set()
     npaths = 0
     for path in g.paths(limit=20000):
+        # a loop over a non-empty literal tuple always runs: the zero-iteration path is infeasible
+        if any(g.nodes[nid].kind == "iter" and id(g.nodes[nid].stmt) in literal_loops and lab is False
+               and not any(n2 == nid and l2 is True for (n2, l2) in path) for (nid, lab) in path):
+            continue
         last = g.nodes[path[-2][0]] if len(path) >= 2 else None
         if last is None or last.kind != "return":
             continue
@@ -145,40 +229,75 @@ def check_eq_method(res, rule: str, cls: ClassInfo, m: FuncInfo, required: List[
         if isinstance(rv, ast.Constant) and rv.value is False:
             continue
         npaths += 1
-        compared: Set[str] = set()
-        nonetest: Set[str] = set()
         entered = {nid for (nid, label) in path[:-1] if g.nodes[nid].kind == "iter" and label is True}
+        # expand and/or/not conditions into the alternatives of atoms that were actually evaluated (short circuit)
+        variants = [[]]
         for (nid, label) in path[:-1]:
             n = g.nodes[nid]
-            exprs = []
-            if n.kind == "iter" and nid not in entered:
-                # zero iterations: the collection is empty on this path, nothing of it is left to compare
-                compared |= _fields_of(n.cond, "self") & (_fields_of(n.cond, other) | _fields_of(n.cond, "self"))
-            if n.kind in ("test", "iter") and n.cond is not None:
-                exprs.append(n.cond)
+            if n.kind == "test" and n.cond is not None and isinstance(label, bool):
+                alts = _expand(n.cond, label)
+                variants = [v + [("atom", a)] for v in variants for a in alts][:512]
+            elif n.kind == "iter":
+                variants = [v + [("iter", (n, nid not in entered))] for v in variants]
             elif n.kind == "return" and n.stmt.value is not None:
-                exprs.append(n.stmt.value)
+                variants = [v + [("expr", n.stmt.value)] for v in variants]
             elif n.kind == "stmt" and isinstance(n.stmt, ast.Assign):
-                exprs.append(n.stmt.value)
-            for e in exprs:
-                c, _nt, a = _examined(e, other, cls)
-                compared |= c
-                asyms |= set(a)
-            # the path condition entails `self.f is None` only for a plain None-test taken in that direction
-            if n.kind == "test" and isinstance(n.cond, ast.Compare) and len(n.cond.ops) == 1 \
-                    and isinstance(n.cond.comparators[0], ast.Constant) and n.cond.comparators[0].value is None:
-                d = dotted_name(n.cond.left)
-                if d and d.startswith("self.") and d.count(".") == 1:
-                    if (isinstance(n.cond.ops[0], ast.Is) and label is True) or \
-                            (isinstance(n.cond.ops[0], ast.IsNot) and label is False):
-                        nonetest.add(d[5:])
-        seen = compared | nonetest
-        seen |= {aliases[f] for f in list(seen) if f in aliases}
-        for f in required:
-            if f not in seen and f not in missing_on_path:
-                conds = [unparse(g.nodes[nid].cond) + f"={label}" for (nid, label) in path[:-1]
-                         if g.nodes[nid].kind == "test"]
-                missing_on_path[f] = "; ".join(conds[-6:]) or "(straight line)"
+                variants = [v + [("expr", n.stmt.value)] for v in variants]
+        for events in variants:
+            compared: Set[str] = set()
+            nonetest: Set[str] = set()
+            none_equal: Set[str] = set()   # fields for which the path established (self.f is None) == (other.f is None)
+            other_none: Set[str] = set()
+            trail = []
+            for (kind, payload) in events:
+                if kind == "iter":
+                    (n, zero) = payload
+                    if zero:
+                        # zero iterations: the collection is empty on this path, nothing of it is left to compare
+                        compared |= _fields_of(n.cond, "self") & (_fields_of(n.cond, other) | _fields_of(n.cond, "self"))
+                    continue
+                if kind == "expr":
+                    c, _nt, a = _examined(payload, other, cls, al_self, al_other)
+                    compared |= c
+                    asyms |= set(a)
+                    continue
+                for (atom, truth) in payload:
+                    trail.append(f"{unparse(atom)}={truth}")
+                    c, _nt, a = _examined(atom, other, cls, al_self, al_other)
+                    compared |= c
+                    asyms |= set(a)
+                    # (self.f is None) != (other.f is None) false / == true: None-ness agrees on this path
+                    if isinstance(atom, ast.Compare) and len(atom.ops) == 1 and isinstance(atom.ops[0], (ast.NotEq, ast.Eq)):
+                        sides = [atom.left, atom.comparators[0]]
+                        if all(isinstance(sd, ast.Compare) and len(sd.ops) == 1 and isinstance(sd.ops[0], (ast.Is, ast.IsNot))
+                               and isinstance(sd.comparators[0], ast.Constant) and sd.comparators[0].value is None for sd in sides):
+                            fs = _fields_of(sides[0], "self") | _fields_of(sides[1], "self")
+                            fo = _fields_of(sides[0], other) | _fields_of(sides[1], other)
+                            if (isinstance(atom.ops[0], ast.NotEq) and truth is False) or (isinstance(atom.ops[0], ast.Eq) and truth is True):
+                                none_equal |= (fs & fo)
+                    # a plain None-test taken in the direction that entails None
+                    if isinstance(atom, ast.Compare) and len(atom.ops) == 1 and isinstance(atom.ops[0], (ast.Is, ast.IsNot)) \
+                            and isinstance(atom.comparators[0], ast.Constant) and atom.comparators[0].value is None:
+                        d = dotted_name(atom.left)
+                        is_none = (isinstance(atom.ops[0], ast.Is) and truth is True) or (isinstance(atom.ops[0], ast.IsNot) and truth is False)
+                        if d and d.startswith("self.") and d.count(".") == 1 and is_none:
+                            nonetest.add(d[5:])
+                        if d and d.startswith(other + ".") and d.count(".") == 1 and is_none:
+                            other_none.add(d.split(".")[1])
+                        if isinstance(atom.left, ast.Name) and is_none:
+                            nonetest |= al_self.get(atom.left.id, set())
+                            other_none |= al_other.get(atom.left.id, set())
+            # a field may go uncompared only if the path knows it is None on *both* sides
+            both_none = {f for f in nonetest if f in none_equal or f in other_none}
+            seen = compared | both_none
+            seen |= {aliases[f] for f in list(seen) if f in aliases}
+            one_sided = nonetest - both_none - compared
+            for f in required:
+                if f not in seen and f not in missing_on_path:
+                    why = "; ".join(trail[-6:]) or "(straight line)"
+                    if f in one_sided:
+                        why += f" — self.{f} is None on this path but nothing establishes that {other}.{f} is None too (asymmetric)"
+                    missing_on_path[f] = why
     if npaths == 0:
         raise AnalysisError(f"{m.where()}: no path returns a non-False value")
     for f in required:
